@@ -10,4 +10,18 @@ MCKeysFront == {K("d1", "g1", ""), K("d2", "g1", ""), K("d1", "g2", ""), K("d1",
 MCView == <<[k \in DOMAIN cache |-> [c |-> cache[k].content, t |-> cache[k].ctype, tmp |-> cache[k].tmp, ls |-> cache[k].listed,
                                      h |-> [i \in 1..Len(cache[k].hist) |-> cache[k].hist[i].content]]],
             pend, subs, now, usedL>>
+\* ------------------------------------------------------------------ thin cases for C10 from the COMPLETE graph of a tiny model
+\* "registered again": a client (subscriber or long poll) registers, its registration ends (the key is removed, it
+\* un-listens, its connection closes, its poll is answered) and it registers AGAIN for the same key; the last step is a change
+\* of that key that must be reported.  Random schedules of 10 steps practically never contain the four steps in order.
+RegSteps(h) == {i \in 1..Len(h) : h[i].op \in {"subscribe", "listen"}}
+EndSteps(h) == {i \in 1..Len(h) : h[i].op \in {"remove", "unsubscribe", "disconnect", "publish"}}
+ThinReReg ==
+    /\ Len(hist) >= 4
+    /\ LET n == Len(hist) IN
+         /\ hist[n].op \in {"publish", "remove"}
+         /\ (hist[n].notify # <<>> \/ hist[n].answered # {})
+         /\ \E i, k \in RegSteps(hist) : \E j \in EndSteps(hist) : i < j /\ j < k /\ k < n
+ExportThinReReg == (ops = MaxOps /\ ThinReReg) => PrintT(<<"REPLAY", ToJson([steps |-> hist])>>)
+MCKeys1 == {K("d1", "g1", "")}
 =============================================================================
